@@ -22,7 +22,8 @@ RULE = ("(a) BFS over sequences of {put value of 4 size classes, put memento onl
         "filesystem back-ends with those budgets, invariant checked after every op, followed by a random "
         "forget-everything sequence; non-trivial = distinct abstract states in which an eviction or an "
         "oversize bypass was observed on the way, plus histories with >=1 eviction"
-        '; rounds 10-11: reads with an earlier memento (read_stale) in the enumeration, frames with cells of very uneven size under many sampling states, booked sizes must not be negative')
+        '; rounds 10-11: reads with an earlier memento (read_stale) in the enumeration, frames with cells of very uneven size under many sampling states, booked sizes must not be negative'
+        '; round 16: in some configurations of the directly driven cache the second function has a version with slashes')
 ASSUMPTIONS = [
     "sizes are the code's own estimates (the property is about consistent accounts, not estimator accuracy)",
     "an eviction is only flagged when the victim's last definite use (value/memento written, value read) is "
